@@ -22,6 +22,7 @@ Notation hdigs_mem := (hdigs_mem H enc).
 Notation adigs_item := (adigs_item H enc alldigs).
 Notation adigs_mem := (adigs_mem alldigs).
 Notation Exposed := (Exposed H enc).
+Notation NodePath := (NodePath H enc show_nat).
 Notation closedR := (closedR H enc).
 
 Lemma Radd_other R g g' : g' <> g -> Radd R g g' = R g'.
@@ -78,7 +79,7 @@ Proof. unfold format_path. rewrite !append_assoc_s. reflexivity. Qed.
 Theorem restore1_exposed : forall t, wf t -> forall n R g k v d,
   NoDup (alldigs t) -> NoDup (hdigs t) -> closedR R t -> aheight t <= n ->
   Exposed R g k v t -> d_digest d = g -> d_key d = k -> d_val d = v ->
-  exists suffix, forall path, restore1 n d path (view R t) = Ok (view (Radd R g) t, [((path ++ suffix)%string, d)], true).
+  exists suffix, NodePath g t suffix /\ forall path, restore1 n d path (view R t) = Ok (view (Radd R g) t, [((path ++ suffix)%string, d)], true).
 Proof.
   induction t as [j | items IH | mems IH] using atree_ind'; intros Hwf.
   - intros n R g k v d Hnd Hndh Hcl Hh Hex Hdg Hdk Hdv. inversion Hex.
@@ -98,7 +99,7 @@ Proof.
       { apply view_blind. intros g' Hg'. rewrite Radd_other.
         - rewrite Forall_forall in Hcl. specialize (Hcl _ Hin). cbn in Hcl. rewrite <- Hg, HRg in Hcl. cbn in Hcl. auto.
         - intros ->. apply Hgs. apply hdigs_alldigs; assumption. }
-      exists ("/" ++ show_nat (List.length pre))%string. intros path.
+      exists ("/" ++ show_nat (List.length pre))%string. split; [eapply np_item_here; eauto|]. intros path.
       pose proof (restore1_arr_step H enc show_nat n d path R (Radd R g) items pre (IHid salt, s) post (blind s)
                   (fun i => [(format_path path (show_nat i), d)])) as Hw.
       cbn [Model2.restore1]. rewrite view_arr. rewrite Hw; try assumption.
@@ -117,7 +118,7 @@ Proof.
       { intros R0 Ho. destruct ik as [|salt|g0]; cbn in Ho |- *; [reflexivity| |discriminate]. injection Ho as ->. reflexivity. }
       assert (Hop' : iopened H enc (Radd R g) (ik, s) = Some true).
       { destruct ik as [|salt|g0]; cbn in Hop |- *; [reflexivity| |discriminate]. injection Hop as Hop. rewrite Radd_mono; auto. }
-      assert (Hsub : exists suffix, forall p, restore1 n d p (view R s) = Ok (view (Radd R g) s, [((p ++ suffix)%string, d)], true)).
+      assert (Hsub : exists suffix, NodePath g s suffix /\ forall p, restore1 n d p (view R s) = Ok (view (Radd R g) s, [((p ++ suffix)%string, d)], true)).
       { rewrite Forall_forall in IH. specialize (IH _ Hin). cbn in IH.
         assert (Hn1 : NoDup (alldigs s)).
         { pose proof (NoDup_flat_map_in adigs_item _ _ Hnd Hin) as Hn1. destruct ik; cbn in Hn1; [assumption|inversion Hn1; assumption|].
@@ -129,8 +130,8 @@ Proof.
         assert (Hhs : aheight s <= n).
         { pose proof (hmax_in item_h _ _ Hin) as Hm. unfold item_h in Hm. destruct ik; lia. }
         eapply IH; eauto. }
-      destruct Hsub as [suffix Hsub].
-      exists ("/" ++ show_nat (List.length pre) ++ suffix)%string. intros path.
+      destruct Hsub as [suffix [Hnp Hsub]].
+      exists ("/" ++ show_nat (List.length pre) ++ suffix)%string. split; [eapply np_item_in; eauto|]. intros path.
       pose proof (restore1_arr_step H enc show_nat n d path R (Radd R g) items pre (ik, s) post (view (Radd R g) s)
                   (fun i => [((format_path path (show_nat i) ++ suffix)%string, d)])) as Hw.
       cbn [Model2.restore1]. rewrite view_arr. rewrite Hw; try assumption.
@@ -213,7 +214,7 @@ Proof.
               rewrite Hq in Hpost_gt. exact (slt_irrefl _ Hpost_gt).
         - rewrite <- HF. assumption.
         - rewrite <- flat_map_app. apply in_flat_map. exists ("_sd", (MSd l, sy)). split; [assumption|]. left. reflexivity. }
-      exists ("/" ++ name)%string. intros path. specialize (Hsd path). specialize (Hoth path).
+      exists ("/" ++ name)%string. split; [eapply np_mem_here; eauto|]. intros path. specialize (Hsd path). specialize (Hoth path).
       cbn [Model2.restore1]. rewrite !view_obj, HF, HF', Hsd. cbn [bind].
       rewrite walk_id.
       * cbn [bind]. reflexivity.
@@ -255,7 +256,7 @@ Proof.
         rewrite Hsplit in Hnd.
         eapply (NoDup_flat_map_other adigs_mem pre (name, (mk, s)) post (d_digest d) Hnd Hadm y Hyo).
         destruct y as [ny [ky sy]]. cbn in Hky |- *. subst ky. exact Ec. }
-      assert (Hsub : exists suffix, forall p, restore1 n d p (view R s) = Ok (view (Radd R g) s, [((p ++ suffix)%string, d)], true)).
+      assert (Hsub : exists suffix, NodePath g s suffix /\ forall p, restore1 n d p (view R s) = Ok (view (Radd R g) s, [((p ++ suffix)%string, d)], true)).
       { rewrite Forall_forall in IH. specialize (IH _ Hin). cbn in IH.
         assert (Hn1 : NoDup (alldigs s)).
         { pose proof (NoDup_flat_map_in adigs_mem _ _ Hnd Hin) as Hn1. destruct Hkind as [->|(salt & -> & _)]; cbn in Hn1; assumption. }
@@ -266,8 +267,8 @@ Proof.
         assert (Hhs : aheight s <= n).
         { pose proof (hmax_in mem_h _ _ Hin) as Hm. unfold mem_h in Hm. destruct Hkind as [->|(salt & -> & _)]; lia. }
         eapply IH; eauto. }
-      destruct Hsub as [suffix Hsub].
-      exists ("/" ++ name ++ suffix)%string. intros path.
+      destruct Hsub as [suffix [Hnp Hsub]].
+      exists ("/" ++ name ++ suffix)%string. split; [eapply np_mem_in; eauto|]. intros path.
       cbn [Model2.restore1]. rewrite !view_obj, Hsd. cbn [bind]. rewrite HF, HF'.
       rewrite (walk_split (obj_body (restore1 n d) path) (flat_map (vmem R) pre) (name, view R s) (flat_map (vmem R) post)
                  (name, view (Radd R g) s) [((format_path path name ++ suffix)%string, d)] true).
